@@ -6,6 +6,7 @@ import ClarabelProofs.Lemmas.SolverStaleSolve
 import ClarabelProofs.Lemmas.SolverStaleQdldl
 import ClarabelProofs.Lemmas.SolverStaleFrame
 import ClarabelProofs.Lemmas.SolverStaleWorkx
+import ClarabelProofs.Lemmas.SolverNormCaches
 
 namespace Clarabel.Solver
 open Clarabel Info Residuals
@@ -56,9 +57,12 @@ theorem Stale.of_sameShape {Bw : KktSolver α → KktSolver α → Prop} {S S' :
 theorem solve_workxSized {S : Solver α} {st : Settings α} {r : SolveResult α} (h : S.solve st = .ok r)
     (hc : ConesOk S.st.cones) (hq : WorkxSized S.st) : WorkxSized r.S.st := by
   have hsh := solve_sameShape h hc
+  obtain ⟨_, _, _, _, e⟩ := solve_data_eq h
   unfold WorkxSized at hq ⊢
-  rw [← hsh.workx, ← hsh.data]
-  exact hq
+  rw [e]
+  have w : S.st.kktsystem.workx.size = r.S.st.kktsystem.workx.size := hsh.workx
+  show r.S.st.kktsystem.workx.size ≤ S.st.data.q.size
+  omega
 
 /-- a solver state is `Stale`-related to the same state with another linear-solver object -/
 theorem Stale.swapSolver {Bw : KktSolver α → KktSolver α → Prop} (S : SolverSt α) (K' : KktSolver α)
@@ -103,7 +107,11 @@ theorem solve_twice_obs (hbeq : ((0 : α) == 0) = true) (st : Settings α) {S : 
   obtain ⟨s1, s2, s3⟩ := solve_solution_shape h1
   have hsol : SolShape ((presolveMap S.st.data).map (fun m => m.keep.size)) S.solution r1.S.solution :=
     SolShape.of_sizes s1.symm s3.symm s2.symm hsz
-  have hrel := solve_rel hbeq qdldl_kktSim st (Stale.of_sameShape hsh hw hq hK) hsol (Or.inl hinit)
+  -- the second solve is the solve of the returned object with the data at entry put back: the
+  -- caches the first solve filled answer `get_normq` / `get_normb` as those at entry (`solve_putBack`)
+  have hrel := solve_rel hbeq qdldl_kktSim st (S' := r1.S.withData S.st.data)
+    (Stale.of_sameShape hsh hw hq hK) hsol (Or.inl hinit)
+  rw [← solve_putBack h1 st] at hrel
   exact hrel.ok_left h1
 
 end
